@@ -348,7 +348,27 @@ impl Check for C08 {
             }
             let _ = done;
         }
-        let n_changes = if there_and_back { 0 } else { n_changes };
+        // the same with a source edit, the middle run going through the OTHER entry point where
+        // the layout serves both: edit, run(B), edit taken back, run(A)
+        let edit_there_and_back = pair.is_none() && i % 9 == 7;
+        if edit_there_and_back {
+            let before_model = cur_model.clone();
+            for _ in 0..20 {
+                let ec = *sr.pick(EDIT_CLASSES);
+                if let Some((m, d)) = gen_edit(&mut sr, ec, &cur_model) {
+                    steps.push(Step { kind: "edit".into(), label: ec.to_string(), desc: d, model: Some(m), cfg: None, out: None, proc: None, entry: None, at: 0, mtime_mode: String::new(), proj_style: None });
+                    let shared = matches!((setup.cwd, setup.conf), (Cwd::SrcTauri, ConfSrc::Tauri) | (Cwd::SrcTauri, ConfSrc::Standalone) | (Cwd::App, ConfSrc::Standalone))
+                        && cur_cfg.file_mode.is_none()
+                        && !cur_cfg.flag_visualize
+                        && cur_cfg.file_out.is_none();
+                    let other = if shared { Some(if setup.entry == Entry::Cli { Entry::Build } else { Entry::Cli }) } else { None };
+                    steps.push(Step { kind: "run".into(), label: "run".into(), desc: "non-forced run (other entry point where possible)".into(), model: None, cfg: None, out: None, proc: Some(gen_proc(&mut sr)), entry: other, at: 0, mtime_mode: String::new(), proj_style: None });
+                    steps.push(Step { kind: "edit".into(), label: format!("revert:{}", ec), desc: format!("take `{}` back", ec), model: Some(before_model.clone()), cfg: None, out: None, proc: None, entry: None, at: 0, mtime_mode: String::new(), proj_style: None });
+                    break;
+                }
+            }
+        }
+        let n_changes = if there_and_back || edit_there_and_back { 0 } else { n_changes };
         for k in 0..n_changes {
             let last = k + 1 == n_changes;
             // the last change walks through all classes; earlier ones are random
